@@ -274,8 +274,8 @@ def c16d(prog, R):
     r.floor(8)
 
 
-def c16e(prog, R):
-    r = R.rule("C16.e", "a later attempt overwrites leftovers; ids of failed attempts are never reused", "W,D")
+def c16e(prog, R, rid="C16.e"):
+    r = R.rule(rid, "a later attempt overwrites leftovers; ids of failed attempts are never reused", "W,D")
     f = prog.need(A.PERSIST_VERSION)
     fam = prog.family(f)
     creates = [c for g in fam for c in g.calls_to(A.FILE_CREATE)]
